@@ -32,6 +32,51 @@ func (c *caseCtx) violate(sig, detail string) {
 	c.rep.Violate(sig, fmt.Sprintf("%s (limit=%s wrapper=%d cfg=%v, after %d ops)", detail, limitKindNames[c.Cfg.Kind], c.Cfg.Wrapper, c.Cfg.P, len(c.History)), c.replay())
 }
 
+
+// newLimitCase builds a limit under test from a generated valid configuration and opens its trace case.
+func newLimitCase(tr *Trace, rep *Report, prop string, r *Rng, kind, wr int, cfgFix func(*LimitCfg)) (*LUT, *caseCtx, *Stream) {
+	cfg := GenLimitCfg(r, kind, wr)
+	if cfgFix != nil {
+		cfgFix(&cfg)
+	}
+	l, err := NewLUT(cfg)
+	if err != nil {
+		rep.Count("constructor-error")
+		return nil, nil, nil
+	}
+	c := &caseCtx{Cfg: l.Cfg, rep: rep, prop: prop, state: map[string]float64{}}
+	tr.Case(30, l.Cfg.Ints()...)
+	return l, c, NewStream(r, l)
+}
+
+// sample feeds one sample to the implementation, records it in the trace and the history.
+func (c *caseCtx) sample(l *LUT, tr *Trace, start, rtt, inflight int64, drop bool) (pre, SampleObs) {
+	p := pre{Est: int64(l.Outer.EstimatedLimit()), EstF: l.EstFloat(), NoLoad: l.NoLoad(), Start: start, Rtt: rtt, Inflight: inflight, Drop: drop, Index: len(c.History)}
+	o := l.OnSample(start, rtt, inflight, drop)
+	tr.Op(1, o.Args, o.Obs)
+	c.History = append(c.History, append([]int64{1}, o.Args...))
+	c.rep.Evaluations++
+	return p, o
+}
+func (c *caseCtx) next(l *LUT, tr *Trace, st *Stream) (pre, SampleObs) {
+	start, rtt, inflight, drop := st.Next()
+	return c.sample(l, tr, start, rtt, inflight, drop)
+}
+func (c *caseCtx) notify(l *LUT, tr *Trace) {
+	a, o := l.Notify()
+	tr.Op(2, a, o)
+	c.History = append(c.History, []int64{2})
+}
+
+// queue allowance of GradientLimit's default SqrtRootFunction(4)
+func gradQueue(est int64) int64 {
+	q := int64(math.Sqrt(float64(est)))
+	if q < 4 {
+		q = 4
+	}
+	return q
+}
+
 type limitOracle func(c *caseCtx, l *LUT, p pre, o SampleObs)
 
 // driveLimits runs nCases streams of nSamples samples for each (kind, wrapper), writing the trace for the model
@@ -136,4 +181,401 @@ func TestC04(t *testing.T) {
 				c.rep.Distinct("edge-input", fmt.Sprint(l.Cfg.Kind, l.Cfg.Wrapper, p.Rtt, p.Inflight, p.Drop, p.Est))
 			}
 		}, nil)
+}
+
+// ---------------- C06: a drop never raises the limit; sustained drops reach the floor ----------------
+func TestC06(t *testing.T) {
+	tr := NewTrace("C06")
+	rep := NewReport("C06")
+	defer func() { tr.Close(); rep.Write(t) }()
+	root := NewRng(Seed())
+	nCases := Scale(40, 600)
+	for _, kind := range []int{0, 1, 2} {
+		for ci := 0; ci < nCases; ci++ {
+			r := root.Fork()
+			l, c, st := newLimitCase(tr, rep, "C06", r, kind, r.Intn(2), nil)
+			if l == nil {
+				continue
+			}
+			name := limitKindNames[kind]
+			check := func(p pre, o SampleObs) {
+				if !p.Drop || o.Panicked {
+					return
+				}
+				rep.Distinct("drop-sample", fmt.Sprint(kind, p.Est, p.Rtt, p.Inflight, o.Est))
+				if o.Est > p.Est {
+					sig := name + ":drop-raises"
+					if kind == 2 && p.Est < gradQueue(p.Est) {
+						sig += ":estimate-below-queue-allowance" // known finding F5
+					}
+					c.violate(sig, fmt.Sprintf("a drop sample raised EstimatedLimit() %d -> %d", p.Est, o.Est))
+				}
+				if kind == 0 {
+					ratio := fb(l.Cfg.P[2])
+					want := int64(math.Max(1, math.Min(float64(p.Est-1), math.Floor(float64(p.Est)*ratio))))
+					if o.Est != want {
+						c.violate("aimd:drop-rule", fmt.Sprintf("drop at limit %d ratio %v gave %d, rule says %d", p.Est, ratio, o.Est, want))
+					}
+				}
+			}
+			// reachable state: random prefix
+			n := r.Intn(Scale(60, 200))
+			for i := 0; i < n && !l.Dead; i++ {
+				check(c.next(l, tr, st))
+			}
+			// sustained drops at a constant RTT equal to the current baseline (so that no sample lowers the baseline)
+			rtt := l.NoLoad()
+			if rtt <= 0 {
+				rtt = st.base
+			}
+			est0 := float64(l.Outer.EstimatedLimit())
+			var bound int
+			floor := int64(1)
+			switch kind {
+			case 0:
+				bound = int(est0) + 2
+			case 1:
+				// every effective drop lowers the stored estimate by at least smoothing*1 (table value >= 1); at most every
+				// second sample is a probe or sets the baseline when multiplier*jitter*est >= 2
+				bound = (int(4*est0/l.Smooth) + 40) * int(1+8/l.Mult)
+			default:
+				bound = int(4*math.Log(est0+2)/(-math.Log(1-l.Smooth/2+1e-12))) + 3*int(est0) + 60
+				floor = l.MinL
+			}
+			if bound > 20000 {
+				bound = 20000
+			}
+			reached := -1
+			for i := 0; i < bound && !l.Dead; i++ {
+				l.Now += 1000
+				p, o := c.sample(l, tr, l.Now, rtt, r.Pick(0, p2(l), p2(l)+3), true)
+				check(p, o)
+				f := floor
+				if kind == 2 && gradQueue(o.Est) > f {
+					f = gradQueue(o.Est)
+				}
+				if o.Est <= f {
+					reached = i
+					break
+				}
+			}
+			if !l.Dead {
+				if reached < 0 {
+					sig := name + ":floor-not-reached"
+					if kind == 1 && float64(l.Mult)*l.EstFloat() <= 2 {
+						sig += ":every-sample-probes" // known finding F19
+					}
+					c.violate(sig, fmt.Sprintf("%d sustained drops from estimate %v did not reach the floor (now %d)", bound, est0, l.Outer.EstimatedLimit()))
+				} else {
+					rep.Distinct("floor-run", fmt.Sprint(kind, est0, reached))
+					rep.Count(fmt.Sprintf("%s.floor-runs", name))
+				}
+			}
+			tr.End()
+			if ci == 0 {
+				rep.Sample(map[string]interface{}{"limit": name, "cfg": l.Cfg.Ints(), "prefix_len": n, "drops_to_floor": reached})
+			}
+		}
+	}
+	// replay of known finding F5: Gradient constructed below its queue allowance
+	{
+		l, _ := NewLUT(LimitCfg{Kind: 2, P: []int64{2, 1, 1000, 1000, FBits(0.2), FBits(2.0)}})
+		before := l.Outer.EstimatedLimit()
+		l.OnSample(0, 1000, 100, true)
+		if after := l.Outer.EstimatedLimit(); after > before {
+			rep.KnownStillFails("gradient:drop-raises:estimate-below-queue-allowance", fmt.Sprintf("initial=2: one drop raises %d -> %d", before, after), nil)
+		}
+	}
+}
+
+func p2(l *LUT) int64 { return int64(l.Outer.EstimatedLimit()) }
+
+// ---------------- C07: growth is demand-gated; healthy saturation recovers ----------------
+func TestC07(t *testing.T) {
+	tr := NewTrace("C07")
+	rep := NewReport("C07")
+	defer func() { tr.Close(); rep.Write(t) }()
+	root := NewRng(Seed())
+	nCases := Scale(30, 500)
+	for _, kind := range []int{0, 1, 2, 3} {
+		for ci := 0; ci < nCases; ci++ {
+			r := root.Fork()
+			l, c, st := newLimitCase(tr, rep, "C07", r, kind, r.Intn(2), func(cfg *LimitCfg) {
+				if cfg.Kind == 2 { // recovery clause is stated for RTT tolerance >= 1
+					if t := fb(cfg.P[5]); t >= 0 && t < 1 {
+						cfg.P[5] = FBits(1.0)
+					}
+				}
+			})
+			if l == nil {
+				continue
+			}
+			name := limitKindNames[kind]
+			check := func(p pre, o SampleObs) {
+				if p.Drop || o.Panicked {
+					return
+				}
+				app := 2*float64(p.Inflight) < p.EstF
+				if kind == 0 {
+					app = p.Inflight < p.Est
+				}
+				if app {
+					rep.Distinct("app-limited", fmt.Sprint(kind, p.Est, p.Inflight, p.Rtt))
+					if o.Est > p.Est {
+						sig := name + ":app-limited-raise"
+						if kind == 2 && p.Est < gradQueue(p.Est) {
+							sig += ":estimate-below-queue-allowance"
+						}
+						c.violate(sig, fmt.Sprintf("a non-drop sample with in-flight %d below half the estimate %v raised EstimatedLimit() %d -> %d", p.Inflight, p.EstF, p.Est, o.Est))
+					}
+				}
+			}
+			n := r.Intn(Scale(80, 300))
+			for i := 0; i < n && !l.Dead; i++ {
+				check(c.next(l, tr, st))
+			}
+			if l.Dead {
+				tr.End()
+				continue
+			}
+			// healthy run: saturated, drop-free, RTT equal to the current baseline (constant for Gradient2)
+			rtt := l.NoLoad()
+			if rtt <= 0 {
+				rtt = st.base
+			}
+			est0 := p2(l)
+			ceil := l.MaxL
+			var bound int
+			switch kind {
+			case 0:
+				bound = 50
+			case 1:
+				bound = (int(3*float64(ceil)/l.Smooth) + 3*int(l.Mult) + 50) * int(1+8/l.Mult)
+			case 2:
+				bound = int(float64(ceil))*2 + 100
+				if l.Interval > 0 {
+					// between two probes the estimate must climb by the queue allowance per sample
+					bound = int(2 * l.Interval)
+				}
+			default:
+				bound = int(8*float64(ceil)/l.Smooth) + 4000
+			}
+			if bound > 60000 {
+				bound = 60000
+			}
+			reached := -1
+			for i := 0; i < bound && !l.Dead; i++ {
+				l.Now += 1000
+				p, o := c.sample(l, tr, l.Now, rtt, p2(l)+r.Range(0, 2), false)
+				check(p, o)
+				switch kind {
+				case 0:
+					inc := l.Cfg.P[1]
+					if inc <= 0 {
+						inc = 1
+					}
+					if o.Est != p.Est+inc {
+						c.violate("aimd:increase-rule", fmt.Sprintf("saturated drop-free sample at %d gave %d, expected +%d", p.Est, o.Est, inc))
+					}
+				case 2:
+					// up by at least the queue allowance per sample until the ceiling or the next probe
+					probe := len(o.Notified) > 0 && false
+					_ = probe
+					nl := l.NoLoad()
+					if nl != 0 && p.NoLoad != 0 && o.Est < p.Est+gradQueue(p.Est) && o.Est < ceil && p.Est >= gradQueue(p.Est) {
+						c.violate("gradient:slow-recovery", fmt.Sprintf("healthy saturated sample raised %d -> %d, less than the queue allowance %d below ceiling %d", p.Est, o.Est, gradQueue(p.Est), ceil))
+					}
+				}
+				if kind != 0 && o.Est >= ceil-1 {
+					reached = i
+					break
+				}
+			}
+			if kind != 0 && !l.Dead {
+				if reached < 0 && !(kind == 2 && l.Interval > 0) {
+					sig := name + ":no-recovery"
+					if kind == 1 && float64(l.Mult)*l.EstFloat() <= 2 {
+						sig += ":every-sample-probes" // known finding F19
+					}
+					c.violate(sig, fmt.Sprintf("%d healthy saturated samples from estimate %d did not bring the estimate within one of the ceiling %d (now %d)", bound, est0, ceil, p2(l)))
+				} else if reached >= 0 {
+					rep.Distinct("recovery-run", fmt.Sprint(kind, est0, ceil, reached))
+					rep.Count(name + ".recovery-runs")
+				}
+			}
+			tr.End()
+			if ci == 0 {
+				rep.Sample(map[string]interface{}{"limit": name, "cfg": l.Cfg.Ints(), "prefix_len": n, "samples_to_ceiling": reached})
+			}
+		}
+	}
+}
+
+// ---------------- C15: the no-load baseline is a recent true minimum, refreshed by probing ----------------
+func TestC15(t *testing.T) {
+	tr := NewTrace("C15")
+	rep := NewReport("C15")
+	defer func() { tr.Close(); rep.Write(t) }()
+	root := NewRng(Seed())
+	nCases := Scale(40, 600)
+	for _, kind := range []int{1, 2} {
+		for ci := 0; ci < nCases; ci++ {
+			r := root.Fork()
+			l, c, st := newLimitCase(tr, rep, "C15", r, kind, r.Intn(2), func(cfg *LimitCfg) {
+				if cfg.Kind == 1 && r.Bool(60) {
+					cfg.P[2] = r.Pick(1, 1, 2, 3) // small multipliers: many probes
+				}
+				if cfg.Kind == 2 && r.Bool(60) {
+					cfg.P[3] = r.Pick(1, 2, 3, 5)
+				}
+			})
+			if l == nil {
+				continue
+			}
+			name := limitKindNames[kind]
+			seen := map[int64]bool{} // RTTs observed since the last reset
+			sinceReset := 0
+			maxEst := float64(p2(l))
+			_, cntBefore := int64(0), int64(0)
+			if l.grad != nil {
+				_, cb := l.grad.VerifState()
+				cntBefore = int64(cb)
+			}
+			n := Scale(200, 600)
+			for i := 0; i < n && !l.Dead; i++ {
+				start, rtt, inflight, drop := st.Next()
+				if rtt >= 1<<53 {
+					rtt = st.base // baseline equality is exact for integers below 2^53
+				}
+				p, o := c.sample(l, tr, start, rtt, inflight, drop)
+				if o.Panicked {
+					break
+				}
+				reset := false
+				if kind == 1 {
+					reset = o.Probe
+				} else {
+					_, cb := l.grad.VerifState()
+					reset = l.Interval > 0 && int64(cb) > cntBefore-1+0 && int64(cb) >= l.Interval && cntBefore-1 <= 0
+					cntBefore = int64(cb)
+				}
+				if reset {
+					rep.Count(name + ".resets")
+					seen = map[int64]bool{}
+					if kind == 1 {
+						lim := float64(l.Mult)*maxEst + 1
+						if float64(sinceReset) > lim {
+							c.violate("vegas:reset-period", fmt.Sprintf("%d samples between baseline resets, more than multiplier x limit = %v", sinceReset, lim))
+						}
+					} else if int64(sinceReset) > 2*l.Interval {
+						c.violate("gradient:reset-period", fmt.Sprintf("%d samples between baseline resets, more than twice the probe interval %d", sinceReset, l.Interval))
+					}
+					sinceReset = 0
+					maxEst = float64(o.Est)
+				}
+				sinceReset++
+				if p.EstF > maxEst {
+					maxEst = p.EstF
+				}
+				if !(kind == 2 && reset) {
+					seen[rtt] = true
+				}
+				nl := o.NoLoad
+				if nl != 0 {
+					rep.Distinct("baseline-set", fmt.Sprint(kind, nl, rtt))
+					if nl > rtt {
+						c.violate(name+":baseline-above-sample", fmt.Sprintf("after a sample with RTT %d the baseline is %d", rtt, nl))
+					}
+					if !seen[nl] {
+						c.violate(name+":baseline-not-observed", fmt.Sprintf("baseline %d is not an RTT observed since the last reset", nl))
+					}
+				}
+				if kind == 1 && float64(sinceReset) > float64(l.Mult)*maxEst+1 {
+					c.violate("vegas:reset-overdue", fmt.Sprintf("%d samples without a baseline reset, more than multiplier x limit", sinceReset))
+					break
+				}
+				if kind == 2 && l.Interval > 0 && int64(sinceReset) > 2*l.Interval {
+					c.violate("gradient:reset-overdue", fmt.Sprintf("%d samples without a baseline reset, more than twice the probe interval %d", sinceReset, l.Interval))
+					break
+				}
+			}
+			tr.End()
+			if ci == 0 {
+				rep.Sample(map[string]interface{}{"limit": name, "cfg": l.Cfg.Ints(), "samples": n})
+			}
+		}
+	}
+}
+
+// ---------------- C16: change notifications are complete and agree with the estimate ----------------
+func TestC16(t *testing.T) {
+	tr := NewTrace("C16")
+	rep := NewReport("C16")
+	defer func() { tr.Close(); rep.Write(t) }()
+	root := NewRng(Seed())
+	nCases := Scale(12, 150)
+	for _, kind := range []int{0, 1, 2, 3, 4, 5} {
+		for _, wr := range []int{0, 1, 2, 3} {
+			for ci := 0; ci < nCases; ci++ {
+				r := root.Fork()
+				l, c, st := newLimitCase(tr, rep, "C16", r, kind, wr, nil)
+				if l == nil {
+					continue
+				}
+				name := limitKindNames[kind]
+				n := Scale(120, 400)
+				for i := 0; i < n && !l.Dead; i++ {
+					if len(l.Listeners) < 4 && (i == 0 || r.Bool(3)) {
+						c.notify(l, tr)
+						rep.Count("listeners-registered")
+					}
+					var est0, est1 int64
+					var notified [][]int64
+					if kind == 4 && r.Bool(25) {
+						est0 = p2(l)
+						v := r.Pick(0, 1, 5, 10, 10, 100, 1000, 1<<31-1)
+						a, o, nf := l.SetLimit(v)
+						tr.Op(3, a, o)
+						c.History = append(c.History, []int64{3, v})
+						rep.Evaluations++
+						est1, notified = p2(l), nf
+						if est1 != v {
+							c.violate("settable:set-not-reported", fmt.Sprintf("SetLimit(%d) but EstimatedLimit()=%d", v, est1))
+						}
+					} else {
+						start, rtt, inflight, drop := st.Next()
+						if wr >= 2 && r.Bool(60) {
+							inflight += l.Cfg.WSize + 1
+						}
+						p, o := c.sample(l, tr, start, rtt, inflight, drop)
+						if o.Panicked {
+							break
+						}
+						est0, est1, notified = p.Est, o.Est, o.Notified
+					}
+					if int64(l.Inner.EstimatedLimit()) != est1 {
+						c.violate(name+":wrapper-estimate", "wrapper reports an estimate different from its delegate")
+					}
+					for li, vals := range notified {
+						if est1 != est0 {
+							rep.Distinct("estimate-change", fmt.Sprint(kind, wr, est0, est1, li))
+							if len(vals) == 0 {
+								c.violate(name+":missed-notification", fmt.Sprintf("estimate changed %d -> %d but listener %d was not called", est0, est1, li))
+							}
+						}
+						if len(vals) > 0 && vals[len(vals)-1] != est1 {
+							c.violate(name+":stale-notification", fmt.Sprintf("listener %d last received %d but EstimatedLimit() reports %d", li, vals[len(vals)-1], est1))
+						}
+						if li > 0 && fmt.Sprint(vals) != fmt.Sprint(notified[0]) {
+							c.violate(name+":listeners-disagree", fmt.Sprintf("listener %d received %v, listener 0 received %v", li, vals, notified[0]))
+						}
+					}
+				}
+				tr.End()
+				if ci == 0 && wr == 0 {
+					rep.Sample(map[string]interface{}{"limit": name, "cfg": l.Cfg.Ints(), "listeners": len(l.Listeners)})
+				}
+			}
+		}
+	}
 }
